@@ -94,10 +94,13 @@ def acyclic(dsk):
     state = {}
 
     def refs(t):
-        if isinstance(t, tuple) and len(t) == 2 and isinstance(t[0], str) and t in dsk:
+        if isinstance(t, tuple) and len(t) >= 2 and isinstance(t[0], str) and all(isinstance(x, (int, str)) for x in t[1:]) and t in dsk:
             yield t
         elif isinstance(t, (tuple, list)):
             for x in t:
+                yield from refs(x)
+        elif isinstance(t, dict):
+            for x in t.values():
                 yield from refs(x)
 
     def visit(k, depth):
